@@ -12,7 +12,8 @@ import (
 // zzDuplex: the agent's side of the transport. Messages queued in `in` are delivered one
 // Write-unit per Read (the framed transport's contract); when `in` is empty Read blocks
 // until the gate is closed and then reports the end of the stream. Writes of the server are
-// collected; every Write may block for a while (zzYield), as a network write does.
+// collected; the first write of every frame may block for a while (zzYield), as a network
+// write does.
 type zzDuplex struct {
 	in   [][]byte
 	out  [][]byte
@@ -29,7 +30,9 @@ func (c *zzDuplex) Read(b []byte) (int, error) {
 	return copy(b, m), nil
 }
 func (c *zzDuplex) Write(b []byte) (int, error) {
-	zzYield()
+	if len(b) == 1 {
+		zzYield() // the first write of a frame (its type byte) may block; the rest follows at once
+	}
 	cp := make([]byte, len(b))
 	copy(cp, b)
 	c.out = append(c.out, cp)
@@ -52,8 +55,9 @@ func zzFrames(msgs ...encoding.BinaryMarshaler) [][]byte {
 	return mc.q
 }
 
-// C16/serv-session: one agent session through the real serv loop. The agent announces a
-// TCP connection, relays two symbolic payload bytes on it, relays one UDP datagram with two
+// C16/serv-session: one agent session through the real serv loop. The agent announces two
+// TCP connections (the service closes the second at once, the agent's EOF for it comes
+// later), relays two symbolic payload bytes on it, relays one UDP datagram with two
 // symbolic bytes, and ends the TCP connection. The sensor-side service reads both, answers
 // both from buffers it reuses right after Write returns, and sees the end of the TCP stream.
 // What the agent receives back must be exactly what the service wrote, addressed to the
@@ -61,22 +65,37 @@ func zzFrames(msgs ...encoding.BinaryMarshaler) [][]byte {
 func zzH_C16_serv() {
 	tl, tr := &net.TCPAddr{IP: net.IPv4(10, 0, 0, 5).To4(), Port: 23}, &net.TCPAddr{IP: net.IPv4(1, 2, 3, 4).To4(), Port: 51000}
 	ul, ur := &net.UDPAddr{IP: net.IPv4(10, 0, 0, 5).To4(), Port: 69}, &net.UDPAddr{IP: net.IPv4(1, 2, 3, 9).To4(), Port: 52000}
-	p1, u1 := zzBytes(2), zzBytes(2)
+	p1, u1, p2 := zzBytes(2), zzBytes(2), zzBytes(1)
+	// a second virtual connection B that the SERVICE closes first; the agent's EOF for it
+	// arrives afterwards and must not disturb connection A
+	bl, br := &net.TCPAddr{IP: net.IPv4(10, 0, 0, 5).To4(), Port: 80}, &net.TCPAddr{IP: net.IPv4(1, 2, 3, 5).To4(), Port: 51001}
 	d := &zzDuplex{gate: make(chan struct{})}
 	d.in = zzFrames(
 		Handshake{ProtocolVersion: 1, CommitID: "c", ShortCommitID: "c", Version: "v", Token: "tok"},
+		ReadWriteUDP{Laddr: ul, Raddr: ur, Payload: u1},
 		Hello{Laddr: tl, Raddr: tr},
 		ReadWriteTCP{Laddr: tl, Raddr: tr, Payload: p1},
-		ReadWriteUDP{Laddr: ul, Raddr: ur, Payload: u1},
+		Hello{Laddr: bl, Raddr: br},
+		EOF{Laddr: bl, Raddr: br},
+		ReadWriteTCP{Laddr: tl, Raddr: tr, Payload: p2},
 		EOF{Laddr: tl, Raddr: tr},
 	)
 	al := &agentListener{ch: make(chan net.Conn)}
-	var got1, got2 []byte
+	var got1, got2, got3 []byte
 	var eofErr error
 	sawEOF, svcDone := false, false
 	go func() {
-		c1 := <-al.ch
 		buf := make([]byte, 8)
+		c2 := <-al.ch
+		n, _ := c2.Read(buf)
+		got2 = append(got2, buf[:n]...)
+		r2 := []byte{'u', 0}
+		if len(got2) > 0 {
+			r2[1] = got2[0]
+		}
+		c2.Write(r2)
+		r2[0], r2[1] = 'Z', 'Z' // the service reuses its buffer
+		c1 := <-al.ch
 		for len(got1) < 2 {
 			n, err := c1.Read(buf)
 			got1 = append(got1, buf[:n]...)
@@ -89,18 +108,17 @@ func zzH_C16_serv() {
 			r1[2] = got1[0]
 		}
 		c1.Write(r1)
-		r1[0], r1[1], r1[2] = 'Z', 'Z', 'Z' // the service reuses its buffer
-		c2 := <-al.ch
-		n, _ := c2.Read(buf)
-		got2 = append(got2, buf[:n]...)
-		r2 := []byte{'u', 0}
-		if len(got2) > 0 {
-			r2[1] = got2[0]
+		r1[0], r1[1], r1[2] = 'Z', 'Z', 'Z'
+		cb := <-al.ch
+		cb.Close() // the service is done with B at once
+		for {
+			n, eofErr = c1.Read(buf)
+			got3 = append(got3, buf[:n]...)
+			if eofErr != nil {
+				break
+			}
 		}
-		c2.Write(r2)
-		r2[0], r2[1] = 'Z', 'Z'
-		n, eofErr = c1.Read(buf)
-		sawEOF = n == 0 && eofErr == io.EOF
+		sawEOF = eofErr == io.EOF
 		svcDone = true
 	}()
 	servDone := false
@@ -111,6 +129,7 @@ func zzH_C16_serv() {
 	zzAssert(zzAnd(svcDone, servDone), "the session loop and the service finish")
 	zzAssert(zzBytesEq(got1, p1), "the service reads exactly the bytes the agent relayed on the TCP connection")
 	zzAssert(zzBytesEq(got2, u1), "the service reads exactly the relayed datagram")
+	zzAssert(zzBytesEq(got3, p2), "data relayed on a connection after ANOTHER connection has ended still reaches the service")
 	zzAssert(sawEOF, "the end of the TCP stream reaches the service after the data")
 	// what the agent got back
 	back := Conn2(&zzMsgConn{q: d.out})
